@@ -218,12 +218,29 @@ def scanner(rep, f, c, labels):
                 continue
             rs = Resolver(b)
             val = rs.rvalue(st['rv'])
-            if val == xkey:
-                store_same = store_same | s
-            elif val == ('bin', 'Add', xkey, ('c', 0x20, 'u8')):
-                store_lower = store_lower | s
-            else:
-                store_other = store_other | s
+            # the stored value per byte class: directly, or through a local assigned on several arms of the classification
+            # (`let lower = match *byte { b'A'..=b'Z' => *byte + 0x20, .. => *byte }`) — each byte takes one arm per iteration
+            alts = [(s, val)]
+            if val[0] == 'loc' and val[1] > b.arg_count and all(k_ == 'assign' for _, _, k_, _ in b.defs.get(val[1], [])):
+                alts = []
+                seen_b = ISet()
+                for dbi, dsi, k_, node in b.defs.get(val[1], []):
+                    sd = ra.reach_of(dbi) & s
+                    if not sd:
+                        continue
+                    alts.append((sd - seen_b, Resolver(b).rvalue(node['rv'])))
+                    if sd & seen_b:
+                        alts.append((sd & seen_b, ('ambiguous',)))
+                    seen_b = seen_b | sd
+                if s - seen_b:
+                    alts.append((s - seen_b, ('unassigned',)))
+            for s, val in alts:
+                if val == xkey:
+                    store_same = store_same | s
+                elif val == ('bin', 'Add', xkey, ('c', 0x20, 'u8')):
+                    store_lower = store_lower | s
+                else:
+                    store_other = store_other | s
         to = {j: ra.reach_of(nb2) for j, nb2 in enumerate(nexts)}
         to_search = ra.reach_of(search[0])
         # where does the None arm (end of input) lead?
@@ -316,7 +333,7 @@ def scanner(rep, f, c, labels):
             rep.ob('C13-O4.index.p2', '%s:store@phase2' % fn, ok,
                    'phase-2 store is not guarded by trimmed_pos != K with longest_label <= K <= array length, followed by += 1',
                    sp_str(st['sp']), {'cutoff': cut, 'array_len': N, 'longest_label': maxlen}, c)
-    rep.floor('C13-O4.index', 'scratch stores', len(stores), 4, c)
+    rep.floor('C13-O4.index', 'scratch stores', len(stores), 2, c)     # at least one per storing phase; the per-class obligations above fail if a class loses its store
     # the cut-off must reject, never search with a truncated candidate
     ncut = 0
     for bi, blk in enumerate(b.blocks):
@@ -329,7 +346,7 @@ def scanner(rep, f, c, labels):
                 rr = b.reach_from(tt)
                 rep.ob('C13-O4.cutoff', '%s:cutoff' % fn, not (rr & (set(nexts) | set(search))) and bool(rr & ret_none),
                        'an over-long label does not lead to None', sp_str(blk['tsp']), {'K': e[3][1]}, c)
-    rep.floor('C13-O4.cutoff', 'cut-off tests', ncut, 2, c)
+    rep.floor('C13-O4.cutoff', 'cut-off tests', ncut, 1, c)      # every phase-2 store must be guarded (index.p2); one shared test is enough
     # --- candidate = &trimmed[..trimmed_pos]
     cl = None
     t = b.blocks[search[0]]['t']
